@@ -94,7 +94,7 @@ def gen(params):
     elif mode == "ascii_sweep":      # 128 x {literal, %XX, %xx} x 4 contexts x all configurations
         for ch in range(128):
             for form in (chr(ch), "%%%02X" % ch, "%%%02x" % ch):
-                for ctx in ("{}", "a{}b", "%{}", "{}%41", "{}{}", "%{}{}", "%4{}", "a{}", "{}a", "ab.-_~{}"):
+                for ctx in ("{}", "a{}b", "%{}", "{}%41", "{}{}", "%{}{}", "%4{}", "a{}", "{}a", "ab.-_~{}", "%{}/x", "%{}g1", "%e{}x"):
                     cps = T(ctx.format(form, form) if ctx.count("{}") == 2 else ctx.format(form))
                     for name in QUOTERS:
                         yield {"kind": "quote", "name": name, "in": cps}
